@@ -2,7 +2,9 @@
    list of <frame hex>=<seconds>|<frame hex>=n  (n = no P1 time); frames not listed have no P1 time.
      F <file>                 -> off:len,...                       frames of the sequential scan (SPEC)
      X <file> <p1table>       -> out=<hex|none>;idx=<hex|none>;count=<n>;counts=<ty:c,...>     MODEL of extract
-     I <file> <p1table>       -> <hex|none>                        fresh index of the file, saved (SPEC for the .p1i) *)
+     I <file> <p1table>       -> <hex|none>                        fresh index of the file, saved (SPEC for the .p1i)
+     XO <file> <p1table> <save_index 0|1> <prior out|none> <prior idx|none>
+                              -> out=<hex|none>;idx=<hex|none>;count=<n>      MODEL of extract over an existing output location *)
 let n_of_int (i : int) : n = if i = 0 then N0 else Npos (pos_of_int i)
 let int_of_n (x : n) : int = match x with N0 -> 0 | Npos p -> int_of_pos p
 let bytes_of_hex h = List.map n_of_int (hex_to_ints (if h = "-" then "" else h))
@@ -27,6 +29,10 @@ let () =
         let r = extract (p1_of (parse_table t)) (bytes_of_hex f) in
         print_endline (Printf.sprintf "out=%s;idx=%s;count=%d;counts=%s" (opt_hex r.xr_output) (opt_hex r.xr_index) (int_of_n r.xr_count)
                          (String.concat "," (List.map (fun (k, v) -> Printf.sprintf "%d:%d" (int_of_n k) (int_of_n v)) r.xr_counts)))
+     | ["XO"; f; t; si; po; pi] ->
+        let opt h = if h = "none" then None else Some (bytes_of_hex h) in
+        let ((o, i), c) = extract_over (p1_of (parse_table t)) (si = "1") (opt po, opt pi) (bytes_of_hex f) in
+        print_endline (Printf.sprintf "out=%s;idx=%s;count=%d" (opt_hex o) (opt_hex i) (int_of_n c))
      | ["I"; f; t] -> print_endline (opt_hex (fresh_saved (p1_of (parse_table t)) (bytes_of_hex f)))
      | _ -> print_endline "?")
      with e -> print_endline ("ERR " ^ Printexc.to_string e))
